@@ -30,9 +30,27 @@ import json,sys
 out,name,apply,suite,d1,d0,res=sys.argv[1:8]
 meta=dict(seed=name, patch_applies=apply, suite_with_patch=suite, demo_exit_with_patch=int(d1), demo_exit_without_patch=int(d0), checks=json.loads(res),
           ran='git worktree of /repo HEAD + patch; pytest suite; demo.py with PYTHONPATH=<patched tree> and =/repo; VERIF_REPO=<patched tree> ./check <id> (quick tier)')
+import re, time, subprocess
 try:
-    old=json.load(open(out+'/meta.json')); meta={**old, **meta}
-except Exception: pass
+    old=json.load(open(out+'/meta.json'))
+except Exception:
+    old={}
+hist=old.get('history', [])
+hist.append(dict(repo_head=subprocess.run(['git','-C','/repo','rev-parse','--short','HEAD'],capture_output=True,text=True).stdout.strip(),
+                 verif_head=subprocess.run(['git','-C','/verif','rev-parse','--short','HEAD'],capture_output=True,text=True).stdout.strip(),
+                 checks=meta['checks']))
+meta={**old, **meta, 'history': hist}
+meta['breaks_property']=name.split('-')[0]
+try:
+    notes=open(out+'/notes.md').read()
+    meta['idea']=notes.splitlines()[0].lstrip('# ').strip()
+    m=re.search(r'^#+\s*What it needs[^\n]*\n(.*?)(?=^#+\s|\Z)', notes, re.S|re.M|re.I)
+    if not m:
+        m=re.search(r'(?:what it )?needs,?(?: in order)? to manifest[^\n]*?[:*]+\s*(.*?)(?=\n\s*\n|\Z)', notes, re.S|re.I)
+    if m:
+        meta['needs_to_manifest']=' '.join(m.group(1).split())[:900]
+except Exception:
+    pass
 json.dump(meta, open(out+'/meta.json','w'), indent=1)
 print(json.dumps(meta))
 PY
